@@ -14,7 +14,7 @@ THEOREMS = ["fasta_read_write", "fasta_rewrap_invariant", "fasta_file_lines", "f
             "sfetch_revcomp_U_not_involutive", "sfetch_subseq", "seqrange_partition",
             "selectn_selects", "selectn_count", "selectn_deterministic",
             "mask_length", "mask_normal", "mask_reverse", "alipid_bounds", "alipid_symmetric",
-            "shuffle_mono_permutation", "shuffle_windows_permutation", "shuffle_kmers_permutation", "shuffle_mono_counts", "shuffle_reproducible",
+            "shuffle_mono_permutation", "shuffle_windows_permutation", "shuffle_kmers_permutation", "shuffle_msa_columns_permutation", "shuffle_mono_counts", "shuffle_reproducible",
             "reformat_afa_shape", "reformat_no_option_identity", "reformat_upper_idempotent", "reformat_rna_then_dna",
             "reformat_roundtrip", "reformat_gap_columns", "alistat_counts", "translate_orf_header"]
 
@@ -815,6 +815,13 @@ def ref_shuffle(rng, i):
         args = ["-G", rng.choice(["--dna", "--rna"]), "-L", str(rng.choice([1, 2, 59, 60, 61, 150])), "--seed", ref_seed(rng)]
         if rng.random() < 0.5: args += ["-N", str(rng.choice([1, 2, 3, 10]))]
         return {"name": "ref-shuffle-%d-G" % i, "ref": True, "sticky": 0, "ops": [op_run("esl-shuffle", args)]}
+    if rng.random() < 0.2:      # -A: shuffle / bootstrap the columns of an alignment (alphabet guessed: clear DNA/RNA only)
+        abc = rng.choice([DNA, "ACGU"])
+        rows, _ = gen_msa(rng, abc=abc, nseq=rng.choice([3, 4, 6, 9]), alen=rng.choice([30, 59, 60, 61, 100, 130]), gapfrac=rng.choice([0.0, 0.1, 0.2]))
+        rows = [(n, rng.choice(["", "desc x"]), "".join(c.lower() if rng.random() < 0.05 else c for c in s_)) for n, s_ in rows]
+        args = ["-A", "--seed", ref_seed(rng)] + (["-b"] if rng.random() < 0.4 else []) + (["-N", str(rng.choice([1, 2, 3]))] if rng.random() < 0.4 else []) + ["--informat", "afa", "in.afa"]
+        return {"name": "ref-shuffle-%d-A" % i, "ref": True, "sticky": 1,
+                "ops": [op_file("in.afa", ref_fasta_text(rng, rows)), op_run("esl-shuffle", args)]}
     recs, abc = ref_records(rng, maxlen=160, long_ok=True)
     args = ["--seed", ref_seed(rng)]
     w = rng.random()
@@ -848,6 +855,30 @@ def ref_downsample(rng, i):
                 "ops": [op_file("in.fa", fasta_text(recs, rng.choice([60, 50, 9]))), op_run("easel", ["downsample", "-S", "--seed", ref_seed(rng), str(m), "in.fa"])]}
     return {"name": "ref-downsample-%d-seqs" % i, "ref": True, "sticky": 1,
             "ops": [op_file("in.fa", ref_fasta_text(rng, recs)), op_run("easel", ["downsample", "-s", "--seed", ref_seed(rng), str(m), "in.fa"])]}
+
+
+def ref_sfetch_afa(rng, i):
+    """esl-sfetch on an alignment file: no SSI index, sequential scan, the de-gapped parsed record is written (file order for -f)"""
+    rows, abc = ref_msa_rows(rng, rng.choice([DNA, AMINO]))
+    rows = [(n, d, "".join(c if c not in "._" else "-" for c in s_)) for n, d, s_ in rows]
+    rows = [(n, d, s_) if s_.replace("-", "") else (n, d, "A" + s_[1:]) for n, d, s_ in rows]
+    ops = [op_file("in.afa", ref_fasta_text(rng, rows))]
+    args = ["--informat", "afa"]
+    mode = rng.choice(["one", "one-r", "one-n", "multi", "multi-r"])
+    if abc != DNA and mode.endswith("-r"): mode = mode[:-2]
+    name = rng.choice(rows)[0]
+    if mode.startswith("multi"):
+        ks = [r[0] for r in rows]; rng.shuffle(ks); ks = ks[:rng.randrange(1, len(ks) + 1)]
+        ops.append(op_file("keys", "\n".join(ks) + "\n"))
+        args += (["-r"] if mode == "multi-r" else []) + ["-f", "in.afa", "keys"]
+    else:
+        args += (["-r"] if mode == "one-r" else []) + (["-n", "renamed"] if mode == "one-n" else []) + ["in.afa", name]
+    if rng.random() < 0.2:
+        args = ["-o", "out.fa"] + args
+        ops += [op_run("esl-sfetch", args), "cat name=out.fa"]
+    else:
+        ops.append(op_run("esl-sfetch", args))
+    return {"name": "ref-sfetchafa-%d-%s" % (i, mode), "ref": True, "sticky": 1, "ops": ops}
 
 
 def ref_sfetch(rng, i):
@@ -962,6 +993,53 @@ def ref_alistat(rng, i):
     args = (["-1"] if which == "esl1" else []) + ["--informat", "afa", ABCFLAG[abc], "in.afa"]
     return {"name": "ref-alistat-%d-%s" % (i, which), "ref": True, "sticky": 1,
             "ops": [op_file("in.afa", text), op_run("esl-alistat", args)]}
+
+
+def ref_alistat_info(rng, i):
+    """esl-alistat --list / --rinfo / --cinfo --noambig files, recomputed from the alignment (numeric fields compared)"""
+    abc = rng.choice([DNA, "ACGU", AMINO])
+    rows, _ = gen_msa(rng, abc=abc, nseq=rng.choice([1, 2, 3, 5, 8]), alen=rng.choice([1, 2, 7, 30, 61]))
+    rows = [("%s%d" % (rng.choice(["s", "seq", "x_"]), k + 1), s_) for k, (n, s_) in enumerate(rows)]
+    alen = len(rows[0][1])
+    rf = "".join("x" if rng.random() < 0.8 else "." for _ in range(alen))
+    if "x" not in rf: rf = "x" + rf[1:]
+    w_ = max(len(n) for n, _ in rows) + 2
+    text = stockholm_text(rows, rng, rf=False, ss=False).replace("//\n", "#=GC RF".ljust(w_ + 8) + rf + "\n//\n")
+    return {"name": "ref-alistatinfo-%d" % i, "ref": True, "nopred_ok": True, "sticky": 1,
+            "alistat_info": {"rows": rows, "rf": rf, "abc": abc},
+            "ops": [op_file("in.sto", text),
+                    op_run("esl-alistat", [ABCFLAG[abc], "--list", "l.out", "--rinfo", "r.out", "--cinfo", "c.out", "--noambig", "in.sto"]),
+                    "cat name=l.out", "cat name=r.out", "cat name=c.out"]}
+
+
+def _check_alistat_info(case, out):
+    info = case["alistat_info"]; rows, rf, abc = info["rows"], info["rf"], info["abc"]
+    def txt(l):
+        p_ = l.split()
+        return bytes.fromhex(p_[1]).decode("latin-1") if len(p_) > 1 and p_[0] == "ok" and p_[1] != "-" else ""
+    lst, rinfo, cinfo = txt(out[-3]), txt(out[-2]), txt(out[-1])
+    if lst.split() != [n for n, _ in rows]:
+        return "--list file %r, expected the names %r" % (lst[:200], [n for n, _ in rows])
+    nseq, alen = len(rows), len(rows[0][1])
+    data = [l.split() for l in rinfo.split("\n") if l.strip() and not l.startswith(("#", "//"))]
+    if len(data) != alen:
+        return "--rinfo has %d data lines, expected %d" % (len(data), alen)
+    rfpos = 0
+    for c, f in enumerate(data):
+        nres = sum(1 for _, s_ in rows if s_[c] != "-")
+        if rf[c] == "x": rfpos += 1
+        want = [str(rfpos) if rf[c] == "x" else "-", str(c + 1), "%.1f" % nres, "%.6f" % (nres / nseq), "%.1f" % (nseq - nres), "%.6f" % ((nseq - nres) / nseq)]
+        if f != want:
+            return "--rinfo column %d: %r, expected %r" % (c + 1, f, want)
+    K = abc.replace("U", "U")
+    data = [l.split() for l in cinfo.split("\n") if l.strip() and not l.startswith(("#", "//"))]
+    if len(data) != alen:
+        return "--cinfo has %d data lines, expected %d" % (len(data), alen)
+    for c, f in enumerate(data):
+        want = [str(c + 1)] + ["%.1f" % sum(1 for _, s_ in rows if s_[c] == x) for x in abc]
+        if f != want:
+            return "--cinfo column %d: %r, expected %r" % (c + 1, f, want)
+    return None
 
 
 def ref_small(rng, i):
@@ -1091,10 +1169,19 @@ def ref_filter(rng, i):
 
 def ref_index(rng, i):
     recs, abc = ref_records(rng, nseq=rng.choice([1, 2, 5, 11]), maxlen=100)
-    name = rng.choice(recs)[0]
+    opts, key = [], None
+    if rng.random() < 0.5:       # UniProt-style names db|acc|id: -u indexes the id, -u -a also the accession, as secondary keys
+        recs = [("%s|P%05d|ID%d_%s" % (rng.choice(["sp", "tr"]), 100 + k, k, rng.choice(["HUMAN", "YEAST"])), d, s_) for k, (n, d, s_) in enumerate(recs)]
+        if rng.random() < 0.2: recs[0] = ("plain0", recs[0][1], recs[0][2])
+        opts = rng.choice([["-u"], ["-u", "-a"], ["-a", "-u"], []])
+        cand = [r for r in recs if "|" in r[0]]
+        if opts and cand:
+            parts = rng.choice(cand)[0].split("|")
+            key = parts[2] if (len(opts) == 1 or rng.random() < 0.5) else parts[1]
+    name = key or rng.choice(recs)[0]
     return {"name": "ref-index-%d" % i, "ref": True, "sticky": 1,
-            "ops": [op_file("in.fa", fasta_text(recs, rng.choice([60, 50, 7]))), op_run("easel", ["index", "in.fa"]),
-                    op_run("esl-sfetch", ["in.fa", name])]}      # the index just written must be usable
+            "ops": [op_file("in.fa", fasta_text(recs, rng.choice([60, 50, 7]))), op_run("easel", ["index"] + opts + ["in.fa"]),
+                    op_run("esl-sfetch", ["in.fa", name])]}      # the index just written must be usable, secondary keys too
 
 
 def _sto_rows(rng, rf=True):
@@ -1111,11 +1198,29 @@ def ref_alimask(rng, i):
     alen = len(rows[0][1])
     text = stockholm_text(rows, rng, rf=rng.random() < 0.5, ss=False)
     flag = ABCFLAG[abc]
-    if rng.random() < 0.5:
+    mode_ = rng.random()
+    if mode_ < 0.3:
         a = rng.randrange(1, alen + 1); b = rng.randrange(a, alen + 1)
         want = [(n, s[a - 1:b]) for n, s in rows]
         args = ["-t", flag, "in.sto", "%d%s%d" % (a, rng.choice(["-", ".."]), b)]
         kind = "t"
+    elif mode_ < 0.5:           # mask file: one 0/1 character per alignment column
+        m = "".join(rng.choice("01") for _ in range(alen))
+        if "1" not in m: m = "1" + m[1:]
+        want = [(n, "".join(s_[c] for c in range(alen) if m[c] == "1")) for n, s_ in rows]
+        text = stockholm_text(rows, rng, rf=False, ss=False)
+        return {"name": "ref-alimask-%d-m" % i, "ref": True, "nopred_ok": True, "sticky": 1, "roundtrip": want,
+                "ops": [op_file("in.sto", text), op_file("maskfile", m + "\n"), op_run("esl-alimask", [flag, "in.sto", "maskfile"]), "save name=mid",
+                        op_run("esl-reformat", ["--informat", "stockholm", "afa", "mid"])]}
+    elif mode_ < 0.65:          # --rf-is-mask: keep the non-gap #=GC RF columns
+        rfline = "".join("x" if rng.random() < 0.7 else "." for _ in range(alen))
+        if "x" not in rfline: rfline = "x" + rfline[1:]
+        want = [(n, "".join(s_[c] for c in range(alen) if rfline[c] == "x")) for n, s_ in rows]
+        w_ = max(len(n) for n, _ in rows) + 2
+        text = stockholm_text(rows, rng, rf=False, ss=False).replace("//\n", "#=GC RF".ljust(w_ + 8) + rfline + "\n//\n")
+        return {"name": "ref-alimask-%d-rf" % i, "ref": True, "nopred_ok": True, "sticky": 1, "roundtrip": want,
+                "ops": [op_file("in.sto", text), op_run("esl-alimask", ["--rf-is-mask", flag, "in.sto"]), "save name=mid",
+                        op_run("esl-reformat", ["--informat", "stockholm", "afa", "mid"])]}
     else:
         nseq = len(rows)
         k = rng.randrange(0, nseq + 1)
@@ -1169,7 +1274,7 @@ def ref_alimanip(rng, i):
     return {"name": "ref-alimanip-%d" % i, "ref": True, "nopred_ok": True, "sticky": 1, "roundtrip": want, "ops": ops}
 
 
-REF_GENERATORS = [("small modes", ref_small), ("esl-afetch -f", ref_afetch_multi), ("esl-alimask", ref_alimask), ("esl-alimanip", ref_alimanip), ("easel index", ref_index), ("easel filter", ref_filter), ("esl-weight", ref_weight), ("esl-afetch", ref_afetch), ("roundtrip", ref_roundtrip), ("esl-alistat", ref_alistat), ("esl-translate", ref_translate), ("esl-sfetch", ref_sfetch), ("esl-seqstat", ref_seqstat), ("esl-alirev", ref_alirev), ("esl-alipid", ref_alipid),
+REF_GENERATORS = [("esl-sfetch afa", ref_sfetch_afa), ("esl-alistat info", ref_alistat_info), ("small modes", ref_small), ("esl-afetch -f", ref_afetch_multi), ("esl-alimask", ref_alimask), ("esl-alimanip", ref_alimanip), ("easel index", ref_index), ("easel filter", ref_filter), ("esl-weight", ref_weight), ("esl-afetch", ref_afetch), ("roundtrip", ref_roundtrip), ("esl-alistat", ref_alistat), ("esl-translate", ref_translate), ("esl-sfetch", ref_sfetch), ("esl-seqstat", ref_seqstat), ("esl-alirev", ref_alirev), ("esl-alipid", ref_alipid),
                   ("esl-seqrange", ref_seqrange), ("esl-selectn", ref_selectn), ("esl-mask", ref_mask),
                   ("esl-reformat", ref_reformat), ("esl-shuffle", ref_shuffle), ("easel downsample", ref_downsample)]
 
@@ -1208,7 +1313,7 @@ def corpus_cases(ctx):
                  op_file("gdf", "a 3 20 seq1\nb 20 3 seq1\nc 16 1 p2\nd 5 5 p2\ne 7 0 seq1\n"),
                  op_run("esl-sfetch", ["--index", "db.fa"]), op_run("esl-sfetch", ["-r", "-C", "-f", "db.fa", "gdf"]),
                  op_run("esl-sfetch", ["-C", "-f", "db.fa", "gdf"])]},
-        # esl-reformat --small closes the alignment file twice (known finding until the double-close fix lands)
+        # esl-reformat --small used to close the alignment file twice (regression witness)
         {"name": "corpus-reformat-small", "ops": [op_file("p.sto", "# STOCKHOLM 1.0\n\ns1  ACGU\ns2  AC-U\n//\n"),
                                                   op_run("esl-reformat", ["--small", "--informat", "pfam", "afa", "p.sto"])]},
         # top level of the `easel` driver and of esl-mixdchlet (esl_subcmd.c dispatch)
@@ -1252,7 +1357,7 @@ def corpus_cases(ctx):
     bad("mask-too-many-lines", [("a.fa", fa), ("m", "s1 1 2\ns2 1 2\ns3 1 2\n")], op_run("esl-mask", ["a.fa", "m"]))
     bad("reformat-bogus", [("a.fa", fa)], op_run("esl-reformat", ["bogus", "a.fa"]))
     bad("reformat-two-alis-afa", [("a.sto", sto + sto.replace("aln1", "aln2"))], op_run("esl-reformat", ["afa", "a.sto"]))
-    bad("translate-bad-code", [("a.fa", fa)], op_run("esl-translate", ["-c", "7", "a.fa"]), known="C13:esl-translate:-c:unknown-table-accepted")
+    bad("translate-bad-code", [("a.fa", fa)], op_run("esl-translate", ["-c", "7", "a.fa"]))
     bad("alirev-protein", [("p.afa", ">p1\nMKVLEFPQWW\n>p2\nMKVLEFPQWY\n")], op_run("esl-alirev", ["--informat", "afa", "p.afa"]))
     bad("alipid-ragged", [("r.afa", ">s1\nACGT\n>s2\nACG\n")], op_run("esl-alipid", ["--informat", "afa", "--dna", "r.afa"]))
     for tool, nargs in (("esl-seqstat", 1), ("esl-translate", 1), ("esl-alipid", 1), ("esl-weight", 1), ("esl-selectn", 2), ("esl-mask", 2),
@@ -1270,7 +1375,7 @@ def reference_cases(ctx):
     per = 30 if ctx.tier == "quick" else 300
     out = []
     for tool, g in REF_GENERATORS:
-        for i in range(max(6, per // 5) if tool == "easel index" else (2 * per if tool in ("esl-translate", "esl-sfetch") else per)):
+        for i in range(max(10, per // 3) if tool == "easel index" else (2 * per if tool in ("esl-translate", "esl-sfetch") else per)):
             out.append(g(rng, i))
     return out
 
@@ -1280,6 +1385,10 @@ def ref_monitor(ctx, case, out):
     for op, l in zip(case["ops"], out):
         if op.startswith("run ") and " class=ok " not in l:
             return None if case.get("may_fail") else _fail("reference case: tool did not succeed on a valid input: " + l[:200])
+    if case.get("alistat_info") is not None and len(out) >= 5:
+        msg = _check_alistat_info(case, out)
+        if msg:
+            return _fail("esl-alistat info files do not match the recomputed counts (%s): %s" % (case["name"], msg))
     if case.get("same_out") and len(out) >= 2:
         o1 = dict(w.split("=", 1) for w in out[-2].split() if "=" in w).get("out")
         o2 = dict(w.split("=", 1) for w in out[-1].split() if "=" in w).get("out")
